@@ -143,8 +143,14 @@ def rfloat(n, d):
     return s + "f"
 
 
-def rexpr(e):
+ASG_KINDS = ("asg", "aasg", "fasg", "sfasg")
+
+
+def rexpr(e, top=False):
+    """top: the expression is a whole statement / for-clause (an assignment needs no parentheses there)"""
     k = e["k"]
+    if k in ASG_KINDS and not top:
+        return "(" + rexpr(e, True) + ")"
     if k == "int":
         return str(e["v"]) if e["v"] >= 0 else "(-%d)" % -e["v"]
     if k == "long":
@@ -227,7 +233,7 @@ def rstmt(s, ind, out):
         init = "" if s["init"]["k"] == "none" else " = " + rexpr(s["init"])
         out.append("%s%s%s %s%s;" % (pad, "final " if s.get("final") else "", rtype(s["t"]), s["n"], init))
     elif k == "expr":
-        out.append(pad + rexpr(s["e"]) + ";")
+        out.append(pad + rexpr(s["e"], True) + ";")
     elif k == "echo":
         out.append("%secho(%s);" % (pad, rexpr(s["e"])))
     elif k == "if":
@@ -255,7 +261,7 @@ def rstmt(s, ind, out):
             rstmt(s["init"], 0, i)
         init = i[0] if i else ";"
         c = "" if s["c"]["k"] == "none" else rexpr(s["c"])
-        u = "" if s["upd"]["k"] == "none" else rexpr(s["upd"])
+        u = "" if s["upd"]["k"] == "none" else rexpr(s["upd"], True)
         out.append("%sfor (%s %s; %s) {" % (pad, init, c, u))
         for x in s["b"]:
             rstmt(x, ind + 1, out)
@@ -333,6 +339,8 @@ def render_class(c, out, ctor_return_this=False):
             mods += "virtual "
         if m["override"]:
             mods += "override "
+        if m.get("quantum"):
+            out.append("  @quantum")
         if m.get("abstract_body"):
             out.append("  %s %sfunction %s(%s) -> %s;" % (m.get("vis", "public"), mods, m["name"], rparams(m["params"]), rtype(m["ret"])))
             continue
